@@ -267,6 +267,56 @@ def j_rules(P, E):
                           "the subscriber's teardown does not unsubscribe the relay attached to the live subject: an unsubscribed "
                           "subscriber's relay stays in the subject's observer map", body=td)
 
+    # ---- J10: a broadcast reaches EVERY observer of its snapshot: between the registry and the loop / for_each that calls the
+    # observers there are only adapters that keep every element (iter, values, map, cloned, collect, into_iter, rev ..) - no
+    # take_while / take / skip / filter / step_by - and a `for` loop over the snapshot leaves only when the iterator is exhausted
+    import rules_arity as RAR
+    AR = RAR.Arity(P, E)
+    KEEP_ALL = set(RAR.SIZE_KEEPING) | set(RAR.ITER_OF) | set(RAR.COLLECT) | {
+        "std::collections::HashMap::iter", "std::collections::HashMap::values", "std::collections::HashMap::into_values",
+        "std::collections::HashMap::iter_mut", "std::collections::HashMap::values_mut", "std::collections::BTreeMap::iter",
+        "std::collections::BTreeMap::values", "std::collections::BTreeMap::into_values", "std::vec::Vec::into_iter",
+        "std::sync::RwLock::read", "std::sync::RwLock::write", "std::sync::Mutex::lock", "std::result::Result::unwrap",
+        "std::iter::Iterator::rev", "std::vec::Vec::drain", "std::collections::HashMap::drain"}
+    for meth, at in (("next", "obs_next"), ("error", "obs_error"), ("complete", "obs_complete")):
+        mb = P.body(SUBJ + "::" + meth)
+        if mb is None:
+            r.error("anchor missing: Subject::%s" % meth)
+            continue
+        sites = []          # (body holding the observer call, iterator operand in mb or in that body, body of the operand)
+        for x in [mb] + P.descendants(mb):
+            for c in x.calls:
+                if atom(c) != at:
+                    continue
+                if x.id != mb.id:
+                    for (role, k, idx) in E.roles.get(x.id, []):
+                        if (role == "INLINE" or role.startswith("STD:")) and k.args and k.path.startswith("std::iter::Iterator::"):
+                            sites.append((x, k.args[0], k.body, k.path))
+                else:
+                    drv = AR.loop_driver_operand(x, c.bb)
+                    if drv is not None:
+                        sites.append((x, drv, x, "for"))
+        r.instance(("J10", mb.nid), bool(sites), "%d broadcasting loop(s)" % len(sites))
+        if not sites:
+            r.violate(("J10", mb.nid, "no broadcast loop"), "Subject::%s does not call every observer of a snapshot of the registry" % meth, body=mb)
+        for (x, opnd, ob, how) in sites:
+            paths, root = AR.iter_chain(ob, opnd)
+            if how not in ("for", "std::iter::Iterator::for_each"):
+                paths = [how] + paths
+            bad = [p_ for p_ in paths if p_ not in KEEP_ALL]
+            if bad:
+                r.violate(("J10", mb.nid, "broadcast skips observers"),
+                          "Subject::%s runs its snapshot of the registry through %s before calling the observers: observers behind "
+                          "the cut (or filtered out) never receive the event" % (meth, ", ".join(b_.split("::")[-1] for b_ in bad)), body=mb)
+            if how == "for":
+                # the loop's only way out is the exhausted iterator
+                fwd = x.reachable_from([c_.bb for c_ in x.calls if atom(c_) == at][0])
+                cyc = {y for y in fwd if [c_.bb for c_ in x.calls if atom(c_) == at][0] in x.reachable_from(y)}
+                exits = {(y, z) for y in cyc for z in x.succ.get(y, []) if z not in cyc}
+                if len({y for (y, z) in exits}) > 1:
+                    r.violate(("J10", mb.nid, "broadcast loop can leave early"),
+                              "the loop over the snapshot in Subject::%s has more than one way out: it can stop before the last observer" % meth, body=mb)
+
     # ---- J6: history before broadcast; subscribe live before replay
     # every state-recording write of a Behavior/Replay subject method precedes its broadcast
     nrec = 0
@@ -909,6 +959,10 @@ def late_handle(P, E):
                         for t in src.operand_prov(st["rv"]["op"]):
                             if t[0] == "agg":
                                 stores.append(i)
+            for c in src.calls:       # the same store spelled slot.replace(handle) / slot.insert(handle)
+                if c.path in ("std::option::Option::replace", "std::option::Option::insert", "std::option::Option::get_or_insert") and len(c.args) > 1 \
+                        and "subscription::Subscription" in ((c.args[1].get("t") or {}).get("s") or ""):
+                    stores.append(c.bb)
             unsubs = [c.bb for c in src.calls if atom(c) == "sub_unsubscribe"]
             r.instance((owner, "LH2"), True, "stores %s, gates %s, release calls %s" % (sorted(set(stores)), [g["switch"] for g in gates], unsubs))
             ok = False
